@@ -361,22 +361,36 @@ def checkpoint_replaces(ctx, rule='CKP'):
     rets = [n for n in own_nodes(hf.node) if isinstance(n, ast.Return)]
     p = hf.params[1]
     assigns = [n for n in own_nodes(hf.node) if isinstance(n, ast.Assign) and pseudo(n.targets[0]) == 'self.chain']
-    # the new value of self.chain with the locals in between resolved (own = self.chain; self.chain = chain(own, parent))
+    # the new value of self.chain with the locals in between resolved
     from sa.pathvals import PathValues
     from sa.paths import Enumerator as _En
     finals = [PathValues(p_).value('self.chain') for p_ in _En(where=hf.qualname).paths(hf.node.body)]
     ok = len(rets) == 1 and _me('[self]', rets[0].value) is not None and len(assigns) == 1 and bool(finals) and \
-        all(v is not None and p in names_in(v) and any(pseudo(x) == 'self.chain' for x in ast.walk(v)) for v in finals)
-    run.check(ok, rule, hf.where, hf.qualname, 'self.chain = chain(self.chain, parent_chain); return [self]',
+        all(v is not None and p in names_in(v) for v in finals)
+    run.check(ok, rule, hf.where, hf.qualname, 'self.chain = chain(<own steps>, parent_chain); return [self]',
               'the links before the checkpoint stay in the parent flow (they run even when the checkpoint exists) or are lost')
     if ok:
-        # the update reads self.chain itself: it is applied again every time the parent flow builds its chain.  With
-        # itertools.chain the previous value has been exhausted by the run that used it; a list / tuple keeps growing.
-        v = assigns[0].value
-        one_shot = isinstance(v, ast.Call) and ctx.res.external_name(v) in ('itertools.chain',) and \
-            all(isinstance(fv, ast.Call) and u(fv.func) in ('itertools.chain', 'chain') for fv in finals)
-        run.check(one_shot, rule, where(ctx.repo, assigns[0]), hf.qualname, 'self.chain is absorbed into a one-shot iterator',
-                  'the preceding links are appended to a re-iterable container that already holds them: on a second run of the '
+        # the update runs every time the parent flow builds its chain (every run of the same Flow object).  If it read
+        # self.chain itself, the preceding links would pile up: with a re-iterable container on every run, with a one-shot
+        # itertools.chain on every run that *resumes* (the chain is then never iterated) - run, run, delete, run executes the
+        # sources twice.  It must be rebuilt from an attribute that only the constructor assigns.
+        own = set()
+        for v in finals:
+            for x in ast.walk(v):
+                if pseudo(x) and pseudo(x).startswith('self.') and not isinstance(getattr(x, 'ctx', None), ast.Store):
+                    own.add(pseudo(x))
+        stable = True
+        for nm in own:
+            writers = [m_.name for m_ in ck.methods.values() for a_ in own_nodes(m_.node)
+                       if isinstance(a_, (ast.Assign, ast.AugAssign)) and
+                       any(pseudo(t_) == nm for t_ in (a_.targets if isinstance(a_, ast.Assign) else [a_.target]))]
+            flow_writers = [m_.name for m_ in repo.cls('dataflows.base.flow:Flow').methods.values() for a_ in own_nodes(m_.node)
+                            if isinstance(a_, ast.Assign) and any(pseudo(t_) == nm for t_ in a_.targets)]
+            if set(writers + flow_writers) - {'__init__'}:
+                stable = False
+        run.check(bool(own) and stable and 'self.chain' not in own, rule, where(ctx.repo, assigns[0]), hf.qualname,
+                  'self.chain is rebuilt from what the constructor stored, not from its own previous value',
+                  'the preceding links are added to a chain that may still hold them from an earlier run: on a later run of the '
                   'same Flow object (retry after a failure, refresh after deleting the checkpoint) every step before the '
                   'checkpoint runs twice')
     fl = repo.cls('dataflows.base.flow:Flow').methods['_preprocess_chain']
